@@ -53,7 +53,7 @@ KERNELS = {
     "C29": ["k_math_bounding", "k_math_percentage", "k_math_clamp", "k_css_clamp", "k_find_extreme"],
     "C28": ["k_index_of", "k_set_nth", "k_append_join", "k_list_separator", "k_list_index", "k_nth", "k_get_list"],
     "C31": ["k_deg_mod"],
-    "C33": ["k_rgba_hex_text", "k_rgba_name"],
+    "C33": ["k_rgba_hex_text", "k_rgba_name", "k_rgba_transparent"],
     "C32": ["k_deg_mod", "k_lighten_darken", "k_fade", "k_complement_grayscale"],
 }
 # for C01 only the panic obligations of the kernels count
@@ -297,6 +297,28 @@ def lift_namedcolor(model):
     return {"scss": "a{b: rgb(%d, %d, %d)}" % (r, g, b), "want": "a name that reads back as (%d, %d, %d)" % (r, g, b), "got": got, "disagreements": bad, "reproduced": bool(bad)}
 
 
+
+def lift_transparent(model):
+    """colours that are not rgba(0, 0, 0, 0) — the model's channels when they are in range, and fixed near-zero witnesses —
+    printed compressed: none may come out as `transparent`"""
+    cands = []
+    vals = [_fval(model, n) for n in ("red", "green", "blue", "alpha")]
+    if all(v is not None and math.isfinite(v) for v in vals) and any(v != 0 for v in vals) and all(0 <= v <= 255 for v in vals[:3]) and 0 <= vals[3] <= 1:
+        cands.append("rgba(%r, %r, %r, %r)" % tuple(vals))
+    cands += ["rgba(0, 0, 0, 0.001)", "rgba(0.4, 0.25, 0.3, 0)", "rgba(0, 0, 0.3, 0)", "transparentize(rgba(0, 0, 0, 0.5), 0.499)", "rgba(1, 0, 0, 0)"]
+    bad, got = [], []
+    for src in cands:
+        for prof in ("dev", "release"):
+            o = native.run_scss("a{b: %s}" % src, prof, True)
+            m = re.search(r"b:\s*([^;}]*)", o["message"]) if o["outcome"] == "ok" else None
+            txt = m.group(1).strip() if m else "<%s>" % o["outcome"]
+            got.append(txt)
+            if txt == "transparent":
+                bad.append({"scss": src, "got": txt})
+    zero = [native.run_scss("a{b: rgba(0, 0, 0, 0)}", prof, True)["message"] for prof in ("dev", "release")]
+    return {"scss": cands[0], "want": "not `transparent` (the colour is not rgba(0, 0, 0, 0))", "got": got[:8], "rgba(0,0,0,0) prints": zero, "disagreements": bad, "reproduced": bool(bad)}
+
+
 def lift_hexcolor(model):
     """print rgb(r, g, b) for the model's bytes in both styles and as a hex literal source: the text must denote (r, g, b)"""
     vals = {}
@@ -475,6 +497,9 @@ STRUCTURAL_PROBES = {
         (({"a.scss": '@use "b";\n@use "c";\nx { y: a }\n', "_b.scss": '@use "c";\nx { y: b }\n', "_c.scss": 'x { y: c }\n'}, "a.scss"), "x { y: c; } x { y: b; } x { y: a; }"),
         (({"a.scss": '@use "b";\nx { y: b.$v }\n', "_b.scss": '$v: 1;\nx { y: b }\n'}, "a.scss"), "x { y: b; } x { y: 1; }"),
         (({"a.scss": '@use "b";\nx { y: a }\n', "_b.scss": '@error "boom";\n'}, "a.scss"), "<error>"),
+        (({"a.scss": '@use "./b";\n@use "./b" as c;\nb.$n: 5;\nz { w: c.$n }\n', "_b.scss": '$n: 0;\nx { y: b }\n'}, "a.scss"), "w: 5"),
+        (({"a.scss": '@use "./l";\n@use "./r";\nz { w: r.$seen }\n', "_l.scss": '@use "s";\ns.$n: 7;\n', "_r.scss": '@use "s";\n$seen: s.$n;\n', "_s.scss": '$n: 0;\n'}, "a.scss"), "w: 7"),
+        (({"d/a.scss": '@use "m/b";\n@use "m/b" as c;\nb.$n: 5;\nz { w: c.$n }\n', "d/m/_b.scss": '$n: 0;\n'}, "d/a.scss"), "w: 5"),
     ],
     "k_math_bounding": [("math.ceil(1.2px)", "2px"), ("math.floor(-1.2em)", "-2em"), ("math.round(2.5)", "3"), ("math.round(-2.5)", "-3"), ("math.abs(-3%)", "3%"),
                         ("math.floor(1.8s)", "1s"), ("math.ceil(-1.8)", "-1"), ("math.round(0.49999)", "0"), ("round(3.5px)", "4px"), ("abs(-2in)", "2in")],
@@ -543,6 +568,11 @@ STRUCTURAL_PROBES["k_lock_pairing"] = STRUCTURAL_PROBES["k_lock_loading"] + STRU
     (({"a.scss": '@import "x";\n@import "y";\n', "_x.scss": '@import "r";\n', "_y.scss": '@import "r";\n', "r.css": "q{y:z}"}, "a.scss"), "q { y: z; } q { y: z; }"),
     (({"a.scss": '@import "http://x/y";\n@import "//x/z";\n@import url(foo);\n@import "q.css";\n'}, "a.scss"), '@import "http://x/y"; @import "//x/z"; @import url(foo); @import "q.css";'),
     (({"a.scss": '@import "nothere";\n'}, "a.scss"), "<error>"),
+    (({"a.scss": '@import "http-helpers";\n'}, "a.scss"), "<error>"), (({"a.scss": '@import "httpstatus";\n'}, "a.scss"), "<error>"),
+    (({"a.scss": '@import "https_only";\n'}, "a.scss"), "<error>"), (({"a.scss": '@import "http/mixins";\n'}, "a.scss"), "<error>"),
+    (({"a.scss": '@import "/rooted";\n'}, "a.scss"), "<error>"), (({"a.scss": '@import "x.cssx";\n'}, "a.scss"), "<error>"), (({"a.scss": '@import "css";\n'}, "a.scss"), "<error>"),
+    (({"a.scss": '@import "https://x/y";\n'}, "a.scss"), '@import "https://x/y";'),
+    (({"a.scss": '@import "http-helpers";\n', "_http-helpers.scss": "x { y: found }\n"}, "a.scss"), "y: found"),
     (({"a.scss": '@import "nothere" screen;\n'}, "a.scss"), '@import "nothere" screen;'),
     (({"a.scss": '@use "m/lib";\n@use "m/mid";\n', "m/_lib.scss": ".lib { a: b }\n", "m/_mid.scss": '@use "lib";\n.mid { c: d }\n'}, "a.scss"), ".lib { a: b; } .mid { c: d; }"),
     (({"a.scss": '@use "a/mid" as am;\n@use "b/mid" as bm;\n', "a/_mid.scss": '@use "lib";\n.a-mid { v: lib.$v }\n', "a/_lib.scss": "$v: a;\n",
@@ -735,6 +765,12 @@ def _c33_name_probes():
 
 
 STRUCTURAL_PROBES["k_rgba_name"] = _c33_name_probes()
+STRUCTURAL_PROBES["k_unique_id"] = [(("rel", "threads-differ"), None), ("str-length(unique-id()) > 1", "true")]
+STRUCTURAL_PROBES["k_rgba_transparent"] = [
+    ("[compressed]a{b: rgba(0, 0, 0, 0)}", "b:transparent}"), ("[compressed]a{b: rgba(0, 0, 0, 0.001)}", "b:rgba(0,0,0,.001)}"), ("[compressed]a{b: rgba(0.4, 0.25, 0.3, 0)}", "b:rgba(.4,.25,.3,0)}"),
+    ("[compressed]a{b: rgba(1, 0, 0, 0)}", "b:rgba(1,0,0,0)}"), ("[compressed]a{b: transparentize(rgba(0, 0, 0, 0.5), 0.499)}", "b:rgba(0,0,0,.001)}"),
+    ("[compressed]a{b: transparent}", "b:transparent}"), ("rgba(0, 0, 0, 0)", "rgba(0, 0, 0, 0)"),
+]
 STRUCTURAL_PROBES["k_meta_call"] = [p for p in _c34_probes() if "meta.call" in p[0][2]] + [
     (("rel", "same-value", "meta.call(meta.get-function(\"f\"), 2, $b: 3)", "f(2, $b: 3)"), None),
     (("rel", "same-value", "meta.call(meta.get-function(\"f\"), (2 3)...)", "f(2, 3)"), None),
@@ -791,6 +827,12 @@ _C07_DOCS = ["a { b: c }", "", "a { b: c }\n\n\n", "@import 'x.css';", "@foo bar
 STRUCTURAL_PROBES["k_output_frame"] = [(("rel", "framed", d, st) + (("nonascii",) if any(ord(ch) > 127 for ch in d) and "/*" not in d else ()), None) for d in _C07_DOCS for st in ("expanded", "compressed")]
 STRUCTURAL_PROBES["k_do_find_file"] = STRUCTURAL_PROBES["k_find_file"] + [((_FLAKY, "[fail-lookup %d]a.scss" % k), "<error>") for k in range(6)] + [
     ((_FLAKY, "[fail-lookup 99]a.scss"), "a { b: 1; c: 2; }")]
+# read failures (the file is found, reading it fails): every kind of load, in particular the ones whose "not found" is not an error
+_FLAKY_READ = {"a.scss": '@use "u";\n@import "p.css";\n@import "q";\na { b: u.$v; }\n', "_u.scss": "$v: 1;\n", "p.css": "p { q: r }\n", "_q.scss": "s { t: u }\n"}
+STRUCTURAL_PROBES["k_find_file"] = STRUCTURAL_PROBES["k_find_file"] + [((_FLAKY_READ, "[fail-read %d]a.scss" % k), "<error>") for k in range(3)] + [
+    ((_FLAKY_READ, "[fail-read 99]a.scss"), "p { q: r; } s { t: u; } a { b: 1; }"),
+    (({"a.scss": '@import "reset.css";\na { b: c }\n', "reset.css": "x { y: z }\n"}, "[fail-read 0]a.scss"), "<error>"),
+    (({"a.scss": '@use "sass:meta";\na { @include meta.load-css("m") }\n', "_m.scss": "x { y: z }\n"}, "[fail-read 0]a.scss"), "<error>")]
 STRUCTURAL_PROBES["k_fsloader_find"] = STRUCTURAL_PROBES["k_find_file"]
 
 
@@ -820,7 +862,11 @@ def structural_probe(kernel, label=""):
             m_fail = re.match(r"\[fail-lookup (\d+)\](.*)", entry)
             if m_fail:
                 fail, entry = int(m_fail.group(1)), m_fail.group(2)
-            outs = [native.run_files(files, entry, prof, comp, fail) for prof in ("dev", "release")]
+            fail_read = None
+            m_fail = re.match(r"\[fail-read (\d+)\](.*)", entry)
+            if m_fail:
+                fail_read, entry = int(m_fail.group(1)), m_fail.group(2)
+            outs = [native.run_files(files, entry, prof, comp, fail, fail_read) for prof in ("dev", "release")]
             vals = [(" ".join(r["message"].split()) if r["outcome"] == "ok" else "<%s>" % r["outcome"]) for r in outs]
             if any(want not in v for v in vals):
                 diffs.append({"files": files, "entry": entry, "want": want, "got": vals})
@@ -886,6 +932,11 @@ def relation_probe(src):
             texts = [(r["message"] if r["outcome"] == "ok" else "<%s>" % r["outcome"]) for r in outs]
             if len(set(texts)) != 1:
                 return {"relation": "compile_scss == transform == compile_scss_path [%s, precision %s] on %r" % (style, prec, doc), "profile": prof, "got": texts}
+        elif kind == "threads-differ":         # unique-id() values produced on three different threads of one process are pairwise distinct
+            outs = native.run_threads("a{b: unique-id(); c: unique-id()}", prof)
+            ids = re.findall(r"[bc]: ([^;]+);", "".join(outs or []))
+            if outs is None or len(ids) != 6 or len(set(ids)) != 6 or not all(re.fullmatch(r"[a-zA-Z_][a-zA-Z0-9_-]*", x) for x in ids):
+                return {"relation": "six unique-id() calls on three threads give six distinct identifiers", "profile": prof, "got": ids or outs}
         elif kind == "framed":                 # the framing of a real output: one final newline, charset / BOM iff non-ASCII
             doc, style = src[2], src[3]
             r = native.run_api("scss", style, 5, doc, prof)
@@ -961,6 +1012,8 @@ def lift(ob):
             return lift_hexcolor(model)
         if kind == "namedcolor":
             return lift_namedcolor(model)
+        if kind == "transparent":
+            return lift_transparent(model)
         if kind == "index-map":
             return lift_index_map(model)
     except Exception as e:  # a broken lifter must not turn into a verdict
